@@ -282,6 +282,11 @@ def c01_catalogue(quick):
           U(5, host='b.test', path='/robots.txt', kind='robotsfile', links=[6]),
           U(6, host='b.test', path='/sitemap.xml', kind='sitemap', links=[8]), U(7), U(8, host='b.test')]
     out.append(scenario('sitemaps-two-hosts', th, dict(sitemaps=1), N=2, start=(1, 2)))
+    # a robots.txt of 6 KiB / 70 KiB with its Sitemap lines at the end
+    for pad in (6000, 70000):
+        big = [dict(u) for u in sm['basic']]
+        big[1] = dict(big[1], pad=pad)
+        out.append(scenario('sitemaps-robots-%dk' % (pad // 1000), big, dict(sitemaps=1), N=1))
     out.append(scenario('sitemaps-basic-L1', sm['basic'], dict(sitemaps=1, level=1), N=1))
     out.append(scenario('sitemaps-basic-L2', sm['basic'], dict(sitemaps=1, level=2), N=1))
     # the answer to a page arrives in two parts (head, body) while another worker's redirect is handled in between
